@@ -8,8 +8,8 @@
 (*              quoting functions and the law RoundTrip: quoting a list of *)
 (*              non-empty arguments, joining with whitespace, with or      *)
 (*              without leading / trailing whitespace, splits back into    *)
-(*              exactly that list.  Every case of the bound is an initial  *)
-(*              state.                                                     *)
+(*              exactly that list.  The cases of the bound are generated   *)
+(*              stepwise (AddArgument / Present), then split.              *)
 (*  WhichSpec   pexpect.utils.which as a scan over the effective PATH      *)
 (*              (env argument's PATH when env is given, else the process   *)
 (*              environment's; the platform default when that PATH is      *)
